@@ -80,7 +80,7 @@ pub fn draw_define(rng: &mut Rng, known: &[String]) -> String {
         5 => format!("{}=0x55", name),
         6 => format!("{}=-1", name),
         7 => format!("{}=85", name),
-        8 => rng.pick(&["x=1=2", "=5", "x=", "x=-", "123=1", "", "x=abc", "x=0x", "x=0b12", "=", "x==", "x=é", "é=1", "x=--1"]).to_string(),
+        8 => rng.pick(&["x=1=2", "=5", "x=", "x=-", "123=1", "", "x=abc", "x=0x", "x=0b12", "=", "x==", "x=é", "é=1", "x=--1", "x=0x_", "x=0b_", "x=1_", "x=_", "x=0o", "x=1__0", "x=\"\"", "x=\"a\"", "x= 1", "x=1 ", "x=$", "x=0x1_"]).to_string(),
         9 => format!("{}=0b101", name),
         10 => format!("{}=2", name),
         _ => format!("{}=555", name),
